@@ -36,7 +36,7 @@ StrfFormats == <<
   <<"%A", ", ", "%B", " ", "%e", ", ", "%Y">>,
   <<"%I", ":", "%M", " ", "%p">>,
   <<"%Y", "%m", "%d", "%H", "%M", "%S">>,
-  <<"%d", "/", "%m", "/", "%Y", " 100%% ", "%j">>
+  <<"%d", "/", "%m", "/", "%Y", " 100", "%%", " ", "%j">>
 >>
 \* formats that determine the instant, built from the documented strptime directives
 ParseFormats == <<
@@ -69,8 +69,14 @@ Family(secs) ==     \* secs: TRUE for the functions of integer seconds, FALSE fo
   \o <<P(IF secs THEN "strptime.c" ELSE "strpntime.c", 0, <<"%c">>, 0)>>
   \o Map(Offsets, LAMBDA o : P(IF secs THEN "strptime" ELSE "strpntime", 0, ZoneFormat, o))
   \o (IF secs THEN <<>> ELSE <<P("strpntime", 0, MicroFormat, 0)>>)
+  \* the instant plus half a second, as a float: "seconds since epoch (integer part)"; sec2gmt(-1234567890.123) is the second
+  \* that holds it, ...:29Z
+  \o (IF secs THEN <<P("sec2gmt.h", 0, None, 0), P("sec2gmt.h", 1, None, 0), P("sec2gmt.h", 3, None, 0), P("sec2gmtdate.h", 0, None, 0),
+                      P("strftime.h", 0, <<"%Y", "-", "%m", "-", "%d", " ", "%H", ":", "%M", ":", "%3S">>, 0),
+                      P("strftime.h", 0, <<"%s">>, 0), P("strftime.h", 0, <<"%N">>, 0), P("strftime.h", 0, <<"%j", " ", "%T">>, 0)>> ELSE <<>>)
 Verbs(secs) ==
      (IF secs THEN [i \in 1..10 |-> P("v.sec2gmt", i - 1, None, 0)] \o <<P("v.sec2gmtdate", 0, None, 0)>> ELSE <<>>)
+  \o (IF secs THEN <<P("v.sec2gmt.h", 0, None, 0), P("v.sec2gmt.h", 1, None, 0), P("v.sec2gmt.h", 6, None, 0), P("v.sec2gmtdate.h", 0, None, 0)>> ELSE <<>>)
   \o Map(<<0, 1, 3, 6, 9>>, LAMBDA k : P("v.sec2gmt.millis", k, None, 0))
   \o Map(<<0, 3, 6, 9>>, LAMBDA k : P("v.sec2gmt.micros", k, None, 0))
   \o (IF secs THEN <<>> ELSE Map(<<0, 1, 5, 9>>, LAMBDA k : P("v.sec2gmt.nanos", k, None, 0)))
@@ -105,8 +111,10 @@ Asked(p, n, s, f) ==
     [] OTHER -> TRUE
 Allowed(p, n, s, f) ==
   CASE p.fn \in {"sec2gmt", "v.sec2gmt", "nsec2gmt"} -> {IsoText(n, s, f, p.k)}
-    [] p.fn \in {"sec2gmtdate", "v.sec2gmtdate", "nsec2gmtdate"} -> {DateText(n)}
+    [] p.fn \in {"sec2gmtdate", "v.sec2gmtdate", "nsec2gmtdate", "sec2gmtdate.h", "v.sec2gmtdate.h"} -> {DateText(n)}
     [] p.fn \in {"strftime", "strfntime"} -> Formatted(p.fmt, n, s, f)
+    [] p.fn \in {"sec2gmt.h", "v.sec2gmt.h"} -> {IsoText(n, s, 500000000, p.k)}
+    [] p.fn = "strftime.h" -> Formatted(p.fmt, n, s, 500000000)
     [] p.fn \in {"gmt2sec", "gmt2sec.rt"} -> {SecsText(n, s)}                       \* "integer seconds since the epoch"
     [] p.fn \in {"gmt2nsec", "gmt2nsec.rt"} -> {UnitText(n, s, 0, 9)}
     [] p.fn \in {"strptime", "strptime.rt", "strptime.c"} -> NumSpellings(SecsText(n, s))
@@ -210,6 +218,30 @@ DurVerdict(q, sg, d, r, out) ==
     [] q \in {"dhms2fsec.rt", "hms2fsec.rt"} -> (IF x \in NumSpellings(v) THEN "ok" ELSE "not inverse")
     [] q = "sec2dhms.rt" -> (IF x = out[DurIdx("sec2dhms")] THEN "ok" ELSE "not inverse")
     [] q = "sec2hms.rt" -> (IF x = out[DurIdx("sec2hms")] THEN "ok" ELSE "not inverse")
+
+(***************************************************************************)
+(* Pairs of instants for datediff.                                          *)
+(***************************************************************************)
+DiffUnits == <<"d", "y", "m", "ym", "yd", "md", "D", "YM">>          \* "(case-insensitive)"
+Canon(u) == CASE u = "D" -> "d" [] u = "YM" -> "ym" [] OTHER -> u
+Deltas == <<0, 1, 2, 27, 28, 29, 30, 31, 32, 58, 59, 60, 61, 62, 89, 90, 91, 92, 364, 365, 366, 367, 730, 731, 1095, 1096, 1460, 1461, 1462,
+            3652, 3653, 36524, 36525, 146096, 146097, 146098>>
+DeltasOf(n) == IF Thorough THEN {Deltas[i] : i \in 1..Len(Deltas)}
+               ELSE {Deltas[((n + Seed + 5 * i) % Len(Deltas)) + 1] : i \in 1..6}
+\* the earlier date late in its day, the later date early in its day (and the other way round): time of day is ignored
+DiffCases ==
+  UNION {UNION {{[kind |-> "diff", n1 |-> n, s1 |-> 86399, n2 |-> n + dl, s2 |-> 0],
+                 [kind |-> "diff", n1 |-> n + dl, s1 |-> (n + dl) % 86400, n2 |-> n, s2 |-> (7 * n + 86000) % 86400]}
+                : dl \in {x \in DeltasOf(n) : InYears(n + x)}} : n \in Days}
+RandDiff(x) ==
+  LET a == Lehmer(x)
+      b == Lehmer(a)
+      c == Lehmer(b)
+      e == Lehmer(c)
+      n1 == MinDay + (a % (MaxDay - MinDay + 1))
+      n2 == IF e % 4 = 0 THEN MinDay + (b % (MaxDay - MinDay + 1)) ELSE n1 + (b % 3000) - 1500
+  IN [kind |-> "diff", n1 |-> n1, s1 |-> c % 86400, n2 |-> IF InYears(n2) THEN n2 ELSE n1, s2 |-> e % 86400]
+DiffVerdict(u, n1, n2, x) == IF x \in {ToString(v) : v \in DateDiff(Canon(u), n1, n2)} THEN "ok" ELSE "value"
 
 (***************************************************************************)
 (* Values that are not numbers: the functions and the verbs leave them.     *)
